@@ -49,6 +49,8 @@ pub fn stage_dump(text: &str, features: Option<&[&str]>, stage: &str) -> String 
     stop!("prevalidate", g);
     let g = pass!("cond_comp", cond_comp::remove_disabled_decls(&session, g));
     stop!("cond_comp", g);
+    // lower_helper checks the precedence annotations again on what cond_comp left
+    pass!("revalidate", prevalidate::validate_precedence_after_cond_comp(&g));
     let g = pass!("resolve", resolve::resolve(g));
     stop!("resolve", g);
     let g = pass!("precedence", precedence::expand_precedence(g));
